@@ -204,6 +204,7 @@ type Doc struct {
 	Password   string
 	Rejected   int
 	LateCloses int // stream writers closed a second time, later
+	EmptyCalls int // WriteCompressed without objects
 	Pages      pdf.Reference
 	Title      string
 	Author     string
@@ -597,6 +598,12 @@ func BuildDoc(r *kit.Rand, cfg DocConfig) (*Doc, error) {
 			}
 
 		case k <= 5 && !cfg.NoObjStm: // WriteCompressed
+			if cfg.WithRejected && r.Chance(1, 10) {
+				// nothing to write: accepted (nothing is written) or refused
+				w.WriteCompressed(nil)
+				d.Ops = append(d.Ops, "WriteCompressed(0)")
+				d.EmptyCalls++
+			}
 			n := 1 + r.Intn(5)
 			if !wideDone {
 				n = kit.Pick(r, []int{254, 255, 256, 257, 258, 300, 600})
